@@ -36,6 +36,29 @@ def handleNew (args : List String) (obs : String) : String :=
     model ++ "\t" ++ verdict
   | _ => "bad-case\tFAIL:bad-case"
 
+/-- c16f `<secs> <nanos>` ⇒ `<SystemTime::iso8601_utc> <cookie Expires> <log line time>`: each is the rendering of the
+    civil date-time of `secs` (the sub-second part never matters). -/
+def handleFunnels (args : List String) (obs : String) : String :=
+  match args.mapM String.toNat? with
+  | some [s, n] =>
+    let iso := match Time.new s with
+      | some dt => iso8601 dt
+      | none => "PANIC"
+    -- a cookie whose expiry is exactly the epoch has no Expires attribute ("not set"); log lines carry `time_ns` as u64
+    -- nanoseconds, which the library documents to panic from the year 2554 on: that funnel is exercised below it
+    let cookie := if s == 0 ∧ n == 0 then "-" else iso
+    let logged := if s * 1000000000 + n > 18446744073709551615 then "-" else iso
+    let model := s!"{iso} {cookie} {logged}"
+    let verdict :=
+      match obs.splitOn " " with
+      | [a, b, c] =>
+        let fails := (if a == iso then [] else ["system-time-rendering"]) ++ (if b == cookie then [] else ["cookie-expires-rendering"]) ++
+          (if c == logged then [] else ["log-line-time-rendering"])
+        if fails.isEmpty then "ok" else "FAIL:" ++ ",".intercalate fails ++ ":"
+      | _ => "FAIL:unparsable:" ++ obs
+    model ++ "\t" ++ verdict
+  | _ => "bad-case\tFAIL:bad-case"
+
 /-- c16a `<y m d h mi s> <dur>` ⇒ `y m d h mi s`. -/
 def handleAdd (args : List String) (obs : String) : String :=
   match args with
